@@ -29,8 +29,8 @@ ASSUMPTIONS = [
     "values come from small domains; backend=None passed explicitly to a context is outside the domain",
 ]
 SHARDS = {"quick": 12, "thorough": 14}
-FLOORS = {"quick": {"observations": 20000, "thread_interleaved_observations": 3000, "exception_exits": 300},
-          "thorough": {"observations": 600000, "thread_interleaved_observations": 100000, "exception_exits": 10000}}
+FLOORS = {"quick": {"observations": 20000, "thread_interleaved_observations": 3000, "exception_exits": 300, "contexts_created_without_with_inside_a_block": 300},
+          "thorough": {"observations": 600000, "thread_interleaved_observations": 100000, "exception_exits": 10000, "contexts_created_without_with_inside_a_block": 8000}}
 
 KEYS = ["backend", "n_jobs", "verbose", "prefer", "require", "max_nbytes", "mmap_mode", "temp_folder"]
 DOM = {"backend": ["threading", "loky", "multiprocessing", "custom_threads", "custom_procs"],
@@ -241,7 +241,7 @@ def cases(tier, seed):
 
 
 def effective(cfg):
-    d = {k: v for k, v in cfg.items() if k != "_api"}
+    d = {k: v for k, v in cfg.items() if not k.startswith("_")}
     if cfg.get("_api") == "parallel_backend" and "n_jobs" not in d:
         d["n_jobs"] = -1
     return d
@@ -249,7 +249,7 @@ def effective(cfg):
 
 def enter_cm(cfg, insts, tid, depth):
     from joblib import parallel_backend, parallel_config
-    kw = {k: v for k, v in cfg.items() if k != "_api"}
+    kw = {k: v for k, v in cfg.items() if not k.startswith("_")}
     if "backend" in kw:
         b = mk_backend(kw["backend"])
         insts[(tid, depth)] = b
@@ -301,7 +301,26 @@ def run_thread(tid, nesting, explicits, exit_by_exc, barrier, ctx, out, lock):
         try:
             with cm:
                 stack.append(effective(cfg))
+                leaked = None
+                if cfg.get("_inner"):
+                    # a context object created inside the block without `with` (the constructor activates it):
+                    # unregistered explicitly before the block ends, or never - the block's exit must undo it all the same
+                    try:
+                        leaked = enter_cm(cfg["_inner"], insts, tid, 10 + i)
+                        stack.append(effective(cfg["_inner"]))
+                        with lock:
+                            out["inner_nowith"] += 1
+                    except ValueError:
+                        with lock:
+                            out["ctor_err"] += 1
                 rec(i + 1)
+                if leaked is not None:
+                    if cfg.get("_inner_unregister"):
+                        leaked.unregister()
+                        stack.pop()
+                        observe(("after-unregister", i))
+                    else:
+                        stack.pop()     # undone by the enclosing block's exit, observed right after it
                 stack.pop()
                 if exit_by_exc[i]:
                     with lock:
@@ -322,7 +341,7 @@ def run_thread(tid, nesting, explicits, exit_by_exc, barrier, ctx, out, lock):
 
 def run_program(threads_spec, ctx):
     lock = threading.Lock()
-    out = dict(obs=0, viol=[], sigs=[], exc_exits=0, ctor_err=0)
+    out = dict(obs=0, viol=[], sigs=[], exc_exits=0, ctor_err=0, inner_nowith=0)
     nthreads = len(threads_spec)
     barrier = threading.Barrier(nthreads)
     ths = []
@@ -338,6 +357,7 @@ def run_program(threads_spec, ctx):
     if nthreads > 1:
         ctx.count("thread_interleaved_observations", out["obs"])
     ctx.count("exception_exits", out["exc_exits"])
+    ctx.count("contexts_created_without_with_inside_a_block", out["inner_nowith"])
     ctx.count("context_ctor_valueerror", out["ctor_err"])
     for s in out["sigs"]:
         ctx.sig(s)
@@ -369,6 +389,10 @@ def run_case(case, ctx):
     for _ in range(nthreads):
         depth = rng.randint(0, 4)
         nesting = [rand_cfg(rng, 3) for _ in range(depth)]
+        for cfg in nesting:
+            if rng.random() < 0.2:
+                cfg["_inner"] = rand_cfg(rng, 3)
+                cfg["_inner_unregister"] = rng.random() < 0.5
         spec.append((nesting, rand_explicits(rng), [rng.random() < 0.3 for _ in nesting]))
     run_program(spec, ctx)
     if case["i"] % 211 == 0:
